@@ -24,6 +24,10 @@ fn code_at(ctx: &Ctx, loc: &str) -> String {
 }
 
 fn panic_sig(ctx: &Ctx, loc: &str, msg: &str) -> String {
+    if loc == "watchdog" {
+        // the in-process pipeline never came back (sut::run_lib)
+        return format!("C07|library|hang|{}", if msg.starts_with("not started") { "later-runs-not-started" } else { "no-result-within-limit" });
+    }
     let loc = short_loc(loc);
     let file = loc.rsplitn(2, ':').nth(1).unwrap_or(&loc).to_string();
     let kind = if msg.contains("not yet implemented") {
